@@ -171,6 +171,10 @@ func leafClass(L, B int64) string {
 	return "<B"
 }
 
+// maxVirtual bounds the virtual file sizes: 2^56 bytes (64 PiB). Larger spans are beyond
+// anything the upload pipeline can be fed and a reader may reasonably refuse them.
+const maxVirtual = int64(1) << 56
+
 type vCase struct {
 	ID      string `json:"id"`
 	N       int64  `json:"file_bytes"` // -1: drawn from the case PRNG
@@ -183,8 +187,9 @@ type vCase struct {
 func TestVirtualJoiner(t *testing.T) {
 	run := obs.Start(t, "C01")
 	defer run.Done()
-	run.Rule("real joiner.New over the virtual tree getter for N around CS*B, CS*B^2, CS*B^3 (+-1, +5) and random N < 2^60, plain (B=8192) and encrypted (B=4096, chunks encrypted with encryption.New as NewChunkEncrypter does); per file: Size, ReadAt at offsets concentrated around subtree boundaries of every level and the end, Seek/Read walk. distinct = (mode, depth of tree, class of N)",
-		"virtual chunks are built from spec.Tree, whose agreement with the real writer is checked by TestTrieWriterLevels")
+	run.Rule("real joiner.New over the virtual tree getter for N around CS*B, CS*B^2, CS*B^3 (+-1, +5) and random N <= 2^56, plain (B=8192) and encrypted (B=4096, chunks encrypted with encryption.New as NewChunkEncrypter does); per file: Size, ReadAt at offsets concentrated around subtree boundaries of every level and the end, Seek/Read walk. distinct = (mode, depth of tree, class of N)",
+		"virtual chunks are built from spec.Tree, whose agreement with the real writer is checked by TestTrieWriterLevels",
+		"file sizes up to 2^56 bytes in quick; thorough adds 2^57-1, 2^57+5, 2^60, 2^60+1 (plain) and 2^57+5, 2^60 (encrypted)")
 	ctx := context.Background()
 	var cases []vCase
 	for _, enc := range []bool{false, true} {
@@ -194,9 +199,23 @@ func TestVirtualJoiner(t *testing.T) {
 		}
 		ns := []int64{CS + 1, 2 * CS, CS*B - 1, CS * B, CS*B + 1, CS*B + CS, CS*B + CS + 1, 2*CS*B + 1,
 			CS*B*B - 1, CS * B * B, CS*B*B + 1, CS*B*B + CS*B + 1, CS*B*B + CS + 1,
-			CS*B*B*B - 1, CS * B * B * B, CS*B*B*B + 5, CS*B*B*B + CS*B*B + CS*B + CS + 1, 1 << 60, 1<<60 + 1}
+			CS*B*B*B - 1, CS * B * B * B, CS*B*B*B + 5, CS*B*B*B + CS*B*B + CS*B + CS + 1}
+		ns = append(ns, maxVirtual, maxVirtual-1, maxVirtual/2+CS*B*B+CS*B+CS+1, 3*CS*B*B+5)
 		for _, n := range ns {
+			if n > maxVirtual {
+				continue
+			}
 			cases = append(cases, vCase{ID: fmt.Sprintf("%s/N%d", modeName(enc), n), N: n, Encrypt: enc})
+		}
+		if run.Thorough() {
+			// beyond 2^56: the unchanged joiner reads these correctly, so a later change must too
+			huge := []int64{1<<57 - 1, 1<<57 + 5, 1 << 60, 1<<60 + 1}
+			if enc {
+				huge = []int64{1<<57 + 5, 1 << 60}
+			}
+			for _, n := range huge {
+				cases = append(cases, vCase{ID: fmt.Sprintf("%s/huge/N%d", modeName(enc), n), N: n, Encrypt: enc})
+			}
 		}
 		for i := 0; i < run.N(10, 24); i++ {
 			cases = append(cases, vCase{ID: fmt.Sprintf("%s/rnd%d", modeName(enc), i), N: -1, Encrypt: enc})
@@ -214,7 +233,7 @@ func TestVirtualJoiner(t *testing.T) {
 		}
 		N := vc.N
 		if N < 0 {
-			N = 1 + rng.Int63n(int64(1)<<uint(19+rng.Intn(42)))
+			N = 1 + rng.Int63n(int64(1)<<uint(19+rng.Intn(38)))
 		}
 		seed := rng.Uint64()
 		vt := fk.NewVTree(N, seed, vc.Encrypt)
